@@ -33,7 +33,12 @@ ON = ["dry", "determ"]
 
 def _corrupt(t: dict) -> bool:
     if t["hdr"]["prevdry"]["res"] == "value" and t["evs"][-1].get("outcome") == "value":
-        t["hdr"]["prevdry"]["val"] += 1
+        t["hdr"]["prevdry"]["val"] += 1      # the real run no longer agrees with the completed dry run
+        return True
+    if t["hdr"]["mode"] == "dry":
+        # a dry run that hands a job to an executor
+        names = sorted(t["hdr"]["limits"])
+        t["evs"].insert(0, {"ev": "submit", "job": "jX", "key": 99, "optout": 0, "units": {n: 0 for n in names}})
         return True
     return False
 
